@@ -38,11 +38,15 @@ def main():
     head = open(demo).read(3000)
     m = re.search(r"(%s/\S+\.go)" % re.escape(wt), head)
     runm = re.search(r"(go (?:test|run) [^\n]*)", head)
-    if not m or not runm:
+    rel = None
+    if not m:
+        rel = re.search(r"cp\s+\S+\s+([\w./-]+\.go)", head)
+    if (not m and not rel) or not runm:
         print("cannot parse demo header; dest=%s run=%s" % (m, runm)); return 2
-    dest = m.group(1).rstrip(".,;)")
+    dest = m.group(1).rstrip(".,;)") if m else os.path.join(wt, rel.group(1))
     runcmd = runm.group(1).strip()
     runcmd = re.sub(r"^\s*//\s*", "", runcmd)
+    runcmd = re.sub(r"\s+#.*$", "", runcmd)
     rec = {"property": prop, "mutant": name, "demo_dest": dest, "demo_cmd": runcmd, "steps": []}
 
     def step(label, ok, out):
